@@ -33,6 +33,24 @@ def c11_classify(c, i):
     out.append("endpoint=" + ("es/_bulk" if es == "1" else "plain"))
     out.append("requests=" + ("1" if len(reqs) == 1 else ("concurrent" if conc == "1" else "scheduled-overlap" if conc == "2" else "sequential")))
     if conc == "2":
+        n = len(reqs)
+        # the schedule is the tail of the case line: <nsched> then that many tokens
+        k = len(c) - 1
+        # find <nsched>: the schedule tokens are all numbers <= 2n; walk back
+        toks = []
+        while k >= 0 and c[k].isdigit():
+            toks.append(int(c[k])); k -= 1
+        toks.reverse()
+        # toks = [... <nsched> s1 .. sm]; locate nsched such that it equals the number of following tokens
+        for j in range(len(toks)):
+            if toks[j] == len(toks) - j - 1:
+                sch = toks[j + 1:]
+                waves = sum(1 for v in sch if v == 2 * n)
+                if waves or any(n <= v < 2 * n for v in sch):
+                    out.append("scheduled: wave history, waves completed=" + ("0" if waves == 0 else "1" if waves == 1 else "2+"))
+                    if any(n <= v < 2 * n for v in sch):
+                        out.append("scheduled: request left open across waves")
+                break
         ngz = sum(1 for q in reqs if q[0] == "1" and q[2] == "0")
         out.append("scheduled: gzip requests overlapping=" + ("2+" if ngz >= 2 else str(ngz)))
         if any(sum(len(t) // 2 - 1 for t in (q[3] if q[0] == "1" else q[1]) if t[2:] != "-") > 16384 for q in reqs):
@@ -76,7 +94,7 @@ CFG = {
     "props_modules": ["FileD.Props.C11"],
     "nontrivial": c11_nontrivial,
     "classify": c11_classify,
-    "rule": "exhaustive bodies over {a,\\n,\\r} up to length 6 (quick) / 8 (thorough) x every chunking into non-empty reads; bodies up to length 4 additionally with an empty read / a read error at every position, data+EOF, gzip in 1-byte and single reads; random plain/gzip bodies up to ~100 KiB (lines around AvgEventSize and around the 16 KiB read buffer, CRLF, no trailing newline) x random chunkings, truncated/corrupted/multi-member gzip, transport errors; sequences of 2-6 requests on one plugin; 2-16 concurrent requests with distinct alphabets; 2-4 requests (mostly gzip, bodies up to ~75 KB) advanced park point by park point (every body Read and every In) in a generated order on one P (blocks / alternation / random walk). distinct = distinct case line; non-trivial = the real plugin made at least one In call",
+    "rule": "exhaustive bodies over {a,\\n,\\r} up to length 6 (quick) / 8 (thorough) x every chunking into non-empty reads; bodies up to length 4 additionally with an empty read / a read error at every position, data+EOF, gzip in 1-byte and single reads; random plain/gzip bodies up to ~100 KiB (lines around AvgEventSize and around the 16 KiB read buffer, CRLF, no trailing newline) x random chunkings, truncated/corrupted/multi-member gzip, transport errors; sequences of 2-6 requests on one plugin; 2-16 concurrent requests with distinct alphabets; 2-4 requests (mostly gzip, bodies up to ~75 KB) advanced park point by park point (every body Read and every In) in a generated order on one P (blocks / alternation / random walk); histories of 2-4 waves of 2-4 overlapping requests on one plugin instance (a wave completes before the next starts, or one request stays open into the next wave). distinct = distinct case line; non-trivial = the real plugin made at least one In call",
     "corr_name": "HttpBulk.serve = (*Plugin).ServeHTTP (In payloads and response status in order, per request; source ids)",
     "trusted_base": [
         "gzip: the decompressed read results are an oracle parameter computed with the plugin's gzip library on the same transport reads (exec recomputes and rejects a case line that disagrees)",
